@@ -197,7 +197,9 @@ func (s *Sorter) SortFile(f io.ReadCloser, pk []string) (err error) {
 		} else if err != nil {
 			return
 		}
-		s.AddRow(row)
+		if err = s.AddRow(row); err != nil {
+			return
+		}
 	}
 	if s.pt != nil {
 		s.pt.Done()
